@@ -39,6 +39,9 @@ func newProtoSpec(r *Report, p *Prog, name string) *protoSpec {
 		r.Viol("FOLLOWED", name, pos, "the function cannot be followed in the protocol domain: "+strings.Join(append(append([]string{}, e.errs...), e.panics...), "; "))
 		return nil
 	}
+	for h, why := range e.proto.readHelpers {
+		r.Ok("READ-HELPER", h+" (used by "+name+")", pos, "hand-written full read of the random source, used through the contract of io.ReadFull because its shape establishes it: "+why)
+	}
 	sort.Strings(e.precond)
 	r.Check(len(e.precond) == 0, "PRECONDITIONS", name, pos, fmt.Sprintf("%d paths followed; every summarised operation (fixed-width scalars, finite points, values that fit their encoding) has its precondition established by the guards of its path", len(outs))+ifs(len(e.precond) > 0, ": "+strings.Join(firstN(e.precond, 3), "; ")))
 	return ps
